@@ -81,7 +81,7 @@ Proof. exact synced_commits_survive_l. Qed.
 Print Assumptions synced_commits_survive.
 
 (** a database whose log is one file (no rotation), after any clean history: whatever the next
-    session does — logged or unlogged calls, checkpoints, syncs — EVERY crash image of the
+    session does short of an explicit checkpoint — logged or unlogged calls, syncs — EVERY crash image of the
     directory (each file keeps a prefix that contains its fsynced bytes; a file of which nothing
     was ever fsynced may vanish) opens, and yields exactly the store of the last close: a prefix
     of the issued operations (the empty prefix of the session) that contains everything the
@@ -90,16 +90,36 @@ Theorem crash_recovers_last_close : forall crc enc dec, crc_u32 crc -> forall cf
   no_crash ss = true -> forallb kclean (hist_flags crc enc dec cfg db_fresh ss) = true ->
   snd (run_sessions crc enc dec cfg db_fresh ss) = ROk st ->
   Forall (rec_ok enc dec) (hist_logs crc enc dec cfg db_fresh ss ++ ops_logs crc enc cfg st os) ->
+  forallb (fun o => negb (is_cp_op o)) os = true ->
   w_seq (db_w (fst (run_ops crc enc cfg st os))) = w_seq (db_w st) ->
   crash (wdrop (db_w (fst (run_ops crc enc cfg st os)))) d' ->
   exists st2, db_open crc dec d' = ROk st2 /\ db_store st2 = db_store st.
 Proof. exact crash_recovers_last_close_l. Qed.
 Print Assumptions crash_recovers_last_close.
 
+(** ... and with an explicit checkpoint in the session (clean operations [os1], wal_checkpoint(),
+    then anything but another checkpoint): every crash image opens to the store as it was at the
+    checkpoint — everything written before the last successful checkpoint is kept *)
+Theorem crash_recovers_last_checkpoint : forall crc enc dec, crc_u32 crc -> forall cfg ss st os1 os2 d',
+  no_crash ss = true -> forallb kclean (hist_flags crc enc dec cfg db_fresh ss) = true ->
+  snd (run_sessions crc enc dec cfg db_fresh ss) = ROk st ->
+  let sta := fst (run_ops crc enc cfg st os1) in
+  let st1 := fst (db_step crc enc cfg sta OCheckpoint) in
+  kclean (fst (scan crc enc cfg st false os1 k0)) = true ->
+  Forall (rec_ok enc dec) (hist_logs crc enc dec cfg db_fresh ss ++ ops_logs crc enc cfg st os1 ++ step_logs sta OCheckpoint
+                           ++ ops_logs crc enc cfg st1 os2) ->
+  forallb (fun o => negb (is_cp_op o)) os2 = true ->
+  w_seq (db_w (fst (run_ops crc enc cfg st1 os2))) = w_seq (db_w st) ->
+  crash (wdrop (db_w (fst (run_ops crc enc cfg st1 os2)))) d' ->
+  exists st2, db_open crc dec d' = ROk st2 /\ db_store st2 = db_store st1.
+Proof. exact crash_recovers_last_checkpoint_l. Qed.
+Print Assumptions crash_recovers_last_checkpoint.
+
 Theorem crash_recovers_last_close_real : forall cfg ss st os d',
   no_crash ss = true -> forallb kclean (real_flags cfg ss) = true ->
   snd (real_sessions cfg ss) = ROk st ->
   Forall rec_fits (real_logs cfg ss ++ ops_logs crc32 enc_record cfg st os) ->
+  forallb (fun o => negb (is_cp_op o)) os = true ->
   w_seq (db_w (fst (real_ops cfg st os))) = w_seq (db_w st) ->
   crash (wdrop (db_w (fst (real_ops cfg st os)))) d' ->
   exists st2, real_open d' = ROk st2 /\ db_store st2 = db_store st.
@@ -120,15 +140,18 @@ Theorem synced_but_uncommitted_lost_refuted : exists cfg os,
 Proof. exists (engine_cfg MSync), w06_1. exact w06_1_l. Qed.
 Print Assumptions synced_but_uncommitted_lost_refuted.
 
-(** C06-K2: after a torn tail the writer appends behind the garbage; a later session that is
-    closed cleanly is lost all the same *)
-Theorem writes_after_torn_tail_lost_refuted : exists cfg ss,
+(** C06-K2 (repaired by 3ca6f5b): under the code before it the writer appended behind a torn
+    tail and a later session that was closed cleanly was lost all the same (the torn record is
+    the only uncommitted one: class K5 is not involved); under the current code the torn tail is
+    cut off when the log is opened and the same history ends with an exact cycle *)
+Theorem writes_after_torn_tail_lost_pre_refuted : exists cfg ss,
   ends_with_close ss
-  /\ (exists o, nth_error (fst (real_sessions cfg ss)) 1 = Some o
-                /\ k06_2 crc32 dec_record_slice (so_disk o) = true /\ k06_5 crc32 dec_record_slice (so_disk o) = true)
-  /\ last_cycle_differs cfg ss.
-Proof. exists (engine_cfg MNoSync), w06_2. exact w06_2_l. Qed.
-Print Assumptions writes_after_torn_tail_lost_refuted.
+  /\ (exists o, nth_error (fst (real_sessions_pre cfg ss)) 1 = Some o
+                /\ k06_2 crc32 dec_record_slice (so_disk o) = true /\ k06_5 crc32 dec_record_slice (so_disk o) = false)
+  /\ last_cycle_differs_pre cfg ss
+  /\ last_cycle_exact_b cfg ss = true.
+Proof. exists (engine_cfg MNoSync), w06_2p. destruct w06_2_pre_l as (A & B & C). split; [exact A|]. split; [exact B|]. split; [exact C|exact w06_2_now_l]. Qed.
+Print Assumptions writes_after_torn_tail_lost_pre_refuted.
 
 (** C06-K5: intact but uncommitted records that recovery dropped are committed by the next close *)
 Theorem dropped_records_resurface_refuted : exists cfg ss,
